@@ -1068,7 +1068,7 @@ func runR131(c *Ctx) {
 				switch t := last.(type) {
 				case *ssa.Return:
 					nRet++
-					if returnsNilError(t) {
+					if returnsNilError(t) && !r131NilRejectedByCallers(p, fn, t) {
 						badRet = p.instrPos(t)
 					}
 					return
@@ -1685,4 +1685,21 @@ func runR136(c *Ctx) {
 	if n == 0 {
 		c.undecided("internal/ecolumn|declared values", "-", "no loop entering a []string parameter into a value map found")
 	}
+}
+
+// r131NilRejectedByCallers: the return hands back a nil value (first result of interface type) with the nil error,
+// and every caller looks at that value only through nil tests and comma-ok / switch type tests: the nil falls into
+// the caller's own `unexpected type` branch, so the failure is still reported (with another text).
+func r131NilRejectedByCallers(p *Prog, fn *ssa.Function, ret *ssa.Return) bool {
+	if len(ret.Results) != 2 {
+		return false
+	}
+	if _, ok := fn.Signature.Results().At(0).Type().Underlying().(*types.Interface); !ok {
+		return false
+	}
+	cst, ok := unspillResult(ret, ret.Results[0]).(*ssa.Const)
+	if !ok || !cst.IsNil() {
+		return false
+	}
+	return r138CallersInspect(p, p.resolver(), fn, 0)
 }
